@@ -379,6 +379,771 @@ T('C04', 'twin-if-else', PK, "        if not sum(symkey) % 65536 == checksum:  #
   "        if sum(symkey) % 65536 == checksum:\n            pass\n        else:\n            raise PGPDecryptionError(\"{:s} decryption failed\".format(self.pkalg.name))\n")
 T('C04', 'twin-mdc-temp', PK, "        _expected_mdcbytes = b'\\xd3\\x14' + hashlib.new('SHA1', pt[:-20]).digest()", "        digest = hashlib.new('SHA1', pt[:-20]).digest()\n        _expected_mdcbytes = b'\\xd3' + b'\\x14' + digest")
 
+# ---- hardening round: behaviour-preserving refactorings the rules must not see, and mutants of every rewritten rule
+C04_SEIPD = """        pt = _decrypt(bytes(self.ct), bytes(key), alg)
+
+        # do the MDC checks
+        _expected_mdcbytes = b'\\xd3\\x14' + hashlib.new('SHA1', pt[:-20]).digest()
+        if not constant_time.bytes_eq(bytes(pt[-22:]), _expected_mdcbytes):
+            raise PGPDecryptionError("Decryption failed")  # pragma: no cover
+
+        iv = bytes(pt[:alg.block_size // 8])
+        del pt[:alg.block_size // 8]
+
+        ivl2 = bytes(pt[:2])
+        del pt[:2]
+
+        if not constant_time.bytes_eq(iv[-2:], ivl2):
+            raise PGPDecryptionError("Decryption failed")  # pragma: no cover
+
+        return pt
+"""
+T('C04', 'twin-seipd-rename-nodel', PK, C04_SEIPD, """        plaintext = _decrypt(bytes(self.ct), bytes(key), alg)
+        bs = alg.block_size // 8
+
+        digest = hashlib.new('SHA1', plaintext[:-20]).digest()
+        if not constant_time.bytes_eq(bytes(plaintext[-22:]), b'\\xd3\\x14' + digest):
+            raise PGPDecryptionError("Decryption failed")  # pragma: no cover
+
+        prefix = bytes(plaintext[:bs])
+        repeat = bytes(plaintext[bs:bs + 2])
+        if not constant_time.bytes_eq(prefix[-2:], repeat):
+            raise PGPDecryptionError("Decryption failed")  # pragma: no cover
+
+        return plaintext[bs + 2:]
+""")
+T('C04', 'twin-seipd-sha1-ctor', PK, "hashlib.new('SHA1', pt[:-20]).digest()\n        if not constant_time.bytes_eq(bytes(pt[-22:])", "hashlib.sha1(pt[:-20]).digest()\n        if not constant_time.bytes_eq(bytes(pt[-22:])")
+T('C04', 'twin-seipd-hash-update', PK, "        _expected_mdcbytes = b'\\xd3\\x14' + hashlib.new('SHA1', pt[:-20]).digest()",
+  "        mdc = hashlib.new('SHA1')\n        mdc.update(pt[:-22])\n        mdc.update(b'\\xd3\\x14')\n        _expected_mdcbytes = b'\\xd3\\x14' + mdc.digest()")
+T('C04', 'twin-seipd-split-mdc', PK, "        _expected_mdcbytes = b'\\xd3\\x14' + hashlib.new('SHA1', pt[:-20]).digest()\n        if not constant_time.bytes_eq(bytes(pt[-22:]), _expected_mdcbytes):\n            raise PGPDecryptionError(\"Decryption failed\")  # pragma: no cover\n",
+  "        if bytes(pt[-22:-20]) != b'\\xd3\\x14':\n            raise PGPDecryptionError(\"Decryption failed\")\n        if not constant_time.bytes_eq(bytes(pt[-20:]), hashlib.new('SHA1', pt[:-20]).digest()):\n            raise PGPDecryptionError(\"Decryption failed\")\n")
+T('C04', 'twin-seipd-combined-guard', PK, C04_SEIPD, """        pt = _decrypt(bytes(self.ct), bytes(key), alg)
+        bs = alg.block_size // 8
+        mdc_ok = constant_time.bytes_eq(bytes(pt[-22:]), b'\\xd3\\x14' + hashlib.new('SHA1', pt[:-20]).digest())
+        prefix_ok = constant_time.bytes_eq(bytes(pt[bs - 2:bs]), bytes(pt[bs:bs + 2]))
+        if not mdc_ok or not prefix_ok:
+            raise PGPDecryptionError("Decryption failed")
+        return pt[bs + 2:]
+""")
+T('C04', 'twin-seipd-demorgan-guard', PK, C04_SEIPD, """        pt = _decrypt(bytes(self.ct), bytes(key), alg)
+        bs = alg.block_size // 8
+        if not (constant_time.bytes_eq(bytes(pt[-22:]), b'\\xd3\\x14' + hashlib.new('SHA1', pt[:-20]).digest())
+                and constant_time.bytes_eq(bytes(pt[bs - 2:bs]), bytes(pt[bs:bs + 2]))):
+            raise PGPDecryptionError("Decryption failed")
+        return pt[bs + 2:]
+""")
+T('C04', 'twin-seipd-kw-decrypt', PK, "        pt = _decrypt(bytes(self.ct), bytes(key), alg)\n\n        # do the MDC checks", "        pt = _decrypt(ct=bytes(self.ct), key=bytes(key), alg=alg, iv=None)\n\n        # do the MDC checks")
+M('C04', 'seipd-combined-and', PK, C04_SEIPD, """        pt = _decrypt(bytes(self.ct), bytes(key), alg)
+        bs = alg.block_size // 8
+        mdc_ok = constant_time.bytes_eq(bytes(pt[-22:]), b'\\xd3\\x14' + hashlib.new('SHA1', pt[:-20]).digest())
+        prefix_ok = constant_time.bytes_eq(bytes(pt[bs - 2:bs]), bytes(pt[bs:bs + 2]))
+        if not mdc_ok and not prefix_ok:
+            raise PGPDecryptionError("Decryption failed")
+        return pt[bs + 2:]
+""", 'C04.1')
+M('C04', 'seipd-split-header-only', PK, "        _expected_mdcbytes = b'\\xd3\\x14' + hashlib.new('SHA1', pt[:-20]).digest()\n        if not constant_time.bytes_eq(bytes(pt[-22:]), _expected_mdcbytes):\n            raise PGPDecryptionError(\"Decryption failed\")  # pragma: no cover\n",
+  "        if bytes(pt[-22:-20]) != b'\\xd3\\x14':\n            raise PGPDecryptionError(\"Decryption failed\")\n", 'C04.1')
+M('C04', 'seipd-split-digest-only', PK, "        _expected_mdcbytes = b'\\xd3\\x14' + hashlib.new('SHA1', pt[:-20]).digest()\n        if not constant_time.bytes_eq(bytes(pt[-22:]), _expected_mdcbytes):\n            raise PGPDecryptionError(\"Decryption failed\")  # pragma: no cover\n",
+  "        if not constant_time.bytes_eq(bytes(pt[-20:]), hashlib.new('SHA1', pt[:-20]).digest()):\n            raise PGPDecryptionError(\"Decryption failed\")\n", 'C04.1')
+M('C04', 'ivcheck-compares-self', PK, "        if not constant_time.bytes_eq(iv[-2:], ivl2):\n            raise PGPDecryptionError(\"Decryption failed\")  # pragma: no cover\n\n        return pt\n", "        if not constant_time.bytes_eq(ivl2, ivl2):\n            raise PGPDecryptionError(\"Decryption failed\")  # pragma: no cover\n\n        return pt\n", 'C04.2')
+
+# ---------------------------------------------------------------- C04.3
+C04_PKSK = """        symalg = SymmetricKeyAlgorithm(m[0])
+        del m[0]
+
+        symkey = m[:symalg.key_size // 8]
+        del m[:symalg.key_size // 8]
+
+        checksum = self.bytes_to_int(m[:2])
+        del m[:2]
+
+        if not sum(symkey) % 65536 == checksum:  # pragma: no cover
+            raise PGPDecryptionError("{:s} decryption failed".format(self.pkalg.name))
+
+        return (symalg, symkey)
+"""
+T('C04', 'twin-pkesk-nodel', PK, C04_PKSK, """        cipher = SymmetricKeyAlgorithm(m[0])
+        klen = cipher.key_size // 8
+        sessionkey = m[1:1 + klen]
+        expected = int.from_bytes(m[1 + klen:3 + klen], 'big')
+        if (sum(sessionkey) & 0xFFFF) != expected:
+            raise PGPDecryptionError("{:s} decryption failed".format(self.pkalg.name))
+        return cipher, sessionkey
+""")
+T('C04', 'twin-pkesk-sum-bytearray', PK, "        if not sum(symkey) % 65536 == checksum:  # pragma: no cover", "        if checksum != sum(bytearray(symkey)) % 65536:  # pragma: no cover")
+M('C04', 'pkesk-returns-unchecked-key', PK, "        return (symalg, symkey)\n\n    def encrypt_sk(self, pk, symalg, symkey):", "        return (symalg, symkey + m)\n\n    def encrypt_sk(self, pk, symalg, symkey):", 'C04.3')
+
+# ---------------------------------------------------------------- C04.4
+C04_KB = """        if self.s2k.usage == 254 and not pt[-20:] == hashlib.new('sha1', pt[:-20]).digest():
+            # if the usage byte is 254, key material is followed by a 20-octet sha-1 hash of the rest
+            # of the key material block
+            raise PGPDecryptionError("Passphrase was incorrect!")
+
+        if self.s2k.usage == 255 and not self.bytes_to_int(pt[-2:]) == (sum(bytearray(pt[:-2])) % 65536):  # pragma: no cover
+            # if the usage byte is 255, key material is followed by a 2-octet checksum of the rest
+            # of the key material block
+            raise PGPDecryptionError("Passphrase was incorrect!")
+
+        return bytearray(pt)
+"""
+T('C04', 'twin-keyblob-nested', FL, C04_KB, """        usage = self.s2k.usage
+        if usage == 254:
+            body, digest = pt[:-20], pt[-20:]
+            if digest != hashlib.sha1(body).digest():
+                raise PGPDecryptionError("Passphrase was incorrect!")
+
+        elif usage == 255:
+            if self.bytes_to_int(pt[-2:]) != sum(bytearray(pt[:-2])) % 65536:
+                raise PGPDecryptionError("Passphrase was incorrect!")
+
+        return bytearray(pt)
+""")
+T('C04', 'twin-keyblob-rename-kw', FL, "        sessionkey = self.s2k.derive_key(passphrase)\n        del passphrase\n\n        # attempt to decrypt this key\n        pt = _decrypt(bytes(self.encbytes), bytes(sessionkey), self.s2k.encalg, bytes(self.s2k.iv))",
+  "        kek = self.s2k.derive_key(passphrase)\n        del passphrase\n\n        # attempt to decrypt this key\n        pt = _decrypt(bytes(self.encbytes), bytes(kek), alg=self.s2k.encalg, iv=bytes(self.s2k.iv))")
+M('C04', 'keyblob-sum-short-range', FL, "(sum(bytearray(pt[:-2])) % 65536):  # pragma: no cover", "(sum(bytearray(pt[:-4])) % 65536):  # pragma: no cover", 'C04.4')
+M('C04', 'keyblob-sha1-or', FL, "        if self.s2k.usage == 254 and not pt[-20:] == hashlib.new('sha1', pt[:-20]).digest():", "        if self.s2k.usage == 254 and not (pt[-20:] == hashlib.new('sha1', pt[:-20]).digest() or len(pt) > 20):", 'C04.4')
+
+# ---------------------------------------------------------------- C04.7
+C04_ECD = """        padder = PKCS7(64).unpadder()
+        return padder.update(_m) + padder.finalize()
+"""
+T('C04', 'twin-ecdh-temps', FL, C04_ECD, """        unpadder = PKCS7(block_size=64).unpadder()
+        head = unpadder.update(_m)
+        tail = unpadder.finalize()
+        return head + tail
+""")
+T('C04', 'twin-ecdh-join', FL, C04_ECD, """        unpadder = PKCS7(64).unpadder()
+        return b''.join([unpadder.update(_m), unpadder.finalize()])
+""")
+T('C04', 'twin-ecdh-unwrap-kw', FL, "        _m = aes_key_unwrap(z, self.c, default_backend())", "        _m = aes_key_unwrap(wrapped_key=self.c, wrapping_key=z, backend=default_backend())")
+M('C04', 'ecdh-lenient-padding', FL, C04_ECD, """        padder = PKCS7(64).unpadder()
+        try:
+            return padder.update(_m) + padder.finalize()
+        except ValueError:
+            return _m
+""", 'C04.7')
+C04_MSG_LOOP = """        for skesk in iter(sk for sk in self._sessionkeys if isinstance(sk, SKESessionKey)):
+            try:
+                symalg, key = skesk.decrypt_sk(passphrase)
+                decmsg = PGPMessage()
+                decmsg.parse(self.message.decrypt(key, symalg))
+
+            except (TypeError, ValueError, NotImplementedError, PGPDecryptionError):
+                continue
+
+            else:
+                del passphrase
+                break
+
+        else:
+            raise PGPDecryptionError("Decryption failed")
+
+        return decmsg
+"""
+T('C04', 'twin-msg-sentinel', PGP, C04_MSG_LOOP, """        result = None
+        for packet in self._sessionkeys:
+            if not isinstance(packet, SKESessionKey):
+                continue
+            try:
+                cipher, sessionkey = packet.decrypt_sk(passphrase)
+                candidate = PGPMessage()
+                candidate.parse(self.message.decrypt(sessionkey, cipher))
+            except (TypeError, ValueError, NotImplementedError, PGPDecryptionError):
+                continue
+            result = candidate
+            break
+
+        if result is None:
+            raise PGPDecryptionError("Decryption failed")
+
+        del passphrase
+        return result
+""")
+T('C04', 'twin-msg-return-in-loop', PGP, C04_MSG_LOOP, """        for skesk in [sk for sk in self._sessionkeys if isinstance(sk, SKESessionKey)]:
+            try:
+                res = skesk.decrypt_sk(passphrase)
+                decmsg = PGPMessage()
+                decmsg.parse(self.message.decrypt(key=res[1], alg=res[0]))
+
+            except (TypeError, ValueError, NotImplementedError, PGPDecryptionError) as exc:
+                continue
+
+            return decmsg
+
+        raise PGPDecryptionError("Decryption failed")
+""")
+T('C04', 'twin-msg-found-flag', PGP, C04_MSG_LOOP, """        found = False
+        decmsg = PGPMessage()
+        for skesk in filter(lambda sk: isinstance(sk, SKESessionKey), self._sessionkeys):
+            try:
+                symalg, key = skesk.decrypt_sk(passphrase)
+                decmsg.parse(self.message.decrypt(key, symalg))
+                found = True
+                break
+
+            except (TypeError, ValueError, NotImplementedError, PGPDecryptionError):
+                pass
+
+        if not found:
+            raise PGPDecryptionError("Decryption failed")
+
+        return decmsg
+""")
+T('C04', 'twin-msg-if-instance-body', PGP, C04_MSG_LOOP, """        for skesk in self._sessionkeys:
+            if isinstance(skesk, SKESessionKey):
+                try:
+                    symalg, key = skesk.decrypt_sk(passphrase)
+                    decmsg = PGPMessage()
+                    decmsg.parse(self.message.decrypt(key, symalg))
+
+                except (TypeError, ValueError, NotImplementedError, PGPDecryptionError):
+                    continue
+
+                else:
+                    break
+
+        else:
+            raise PGPDecryptionError("Decryption failed")
+
+        return decmsg
+""")
+T('C04', 'twin-msg-precondition-else', PGP, "        if not self.is_encrypted:\n            raise PGPError(\"This message is not encrypted!\")\n\n        for skesk in iter(", "        if self.is_encrypted:\n            pass\n        else:\n            raise PGPError(\"This message is not encrypted!\")\n\n        for skesk in iter(")
+T('C04', 'twin-msg-no-continue-sentinel', PGP, C04_MSG_LOOP, """        decmsg = None
+        for skesk in (sk for sk in self._sessionkeys if isinstance(sk, SKESessionKey)):
+            if decmsg is not None:
+                break
+            try:
+                symalg, key = skesk.decrypt_sk(passphrase)
+                attempt = PGPMessage()
+                attempt.parse(self.message.decrypt(key, symalg))
+                decmsg = attempt
+
+            except (TypeError, ValueError, NotImplementedError, PGPDecryptionError):
+                pass
+
+        if decmsg is None:
+            raise PGPDecryptionError("Decryption failed")
+
+        return decmsg
+""")
+M('C04', 'msg-sentinel-check-dropped', PGP, C04_MSG_LOOP, """        result = None
+        for packet in self._sessionkeys:
+            if not isinstance(packet, SKESessionKey):
+                continue
+            try:
+                cipher, sessionkey = packet.decrypt_sk(passphrase)
+                candidate = PGPMessage()
+                candidate.parse(self.message.decrypt(sessionkey, cipher))
+            except (TypeError, ValueError, NotImplementedError, PGPDecryptionError):
+                continue
+            result = candidate
+            break
+
+        del passphrase
+        return result
+""", 'C04.5')
+M('C04', 'msg-sentinel-assigned-early', PGP, C04_MSG_LOOP, """        result = None
+        for packet in self._sessionkeys:
+            if not isinstance(packet, SKESessionKey):
+                continue
+            try:
+                cipher, sessionkey = packet.decrypt_sk(passphrase)
+                result = PGPMessage()
+                result.parse(self.message.decrypt(sessionkey, cipher))
+            except (TypeError, ValueError, NotImplementedError, PGPDecryptionError):
+                continue
+            break
+
+        if result is None:
+            raise PGPDecryptionError("Decryption failed")
+
+        del passphrase
+        return result
+""", 'C04.5')
+M('C04', 'msg-found-flag-early', PGP, C04_MSG_LOOP, """        found = False
+        decmsg = PGPMessage()
+        for skesk in filter(lambda sk: isinstance(sk, SKESessionKey), self._sessionkeys):
+            try:
+                symalg, key = skesk.decrypt_sk(passphrase)
+                found = True
+                decmsg.parse(self.message.decrypt(key, symalg))
+                break
+
+            except (TypeError, ValueError, NotImplementedError, PGPDecryptionError):
+                pass
+
+        if not found:
+            raise PGPDecryptionError("Decryption failed")
+
+        return decmsg
+""", 'C04.5')
+M('C04', 'msg-filter-dropped', PGP, "        for skesk in iter(sk for sk in self._sessionkeys if isinstance(sk, SKESessionKey)):", "        for skesk in iter(sk for sk in self._sessionkeys):", 'C04.5')
+M('C04', 'msg-parse-error-swallowed', PGP, "                decmsg.parse(self.message.decrypt(key, symalg))\n\n            except (TypeError", "                try:\n                    decmsg.parse(self.message.decrypt(key, symalg))\n                except PGPDecryptionError:\n                    pass\n\n            except (TypeError", 'C04.5')
+M('C04', 'msg-handler-returns-self', PGP, "            except (TypeError, ValueError, NotImplementedError, PGPDecryptionError):\n                continue\n\n            else:\n                del passphrase", "            except (TypeError, ValueError, NotImplementedError):\n                continue\n\n            except PGPDecryptionError:\n                return self\n\n            else:\n                del passphrase", 'C04.5')
+M('C04', 'msg-precondition-dropped', PGP, "        if not self.is_encrypted:\n            raise PGPError(\"This message is not encrypted!\")\n\n        for skesk in iter(", "        for skesk in iter(", 'C04.5')
+M('C04', 'msg-precondition-returns-self', PGP, "        if not self.is_encrypted:\n            raise PGPError(\"This message is not encrypted!\")\n\n        for skesk in iter(", "        if not self.is_encrypted:\n            return self\n\n        for skesk in iter(", 'C04.5')
+M('C04', 'msg-finally-break', PGP, "            else:\n                del passphrase\n                break\n\n        else:\n            raise PGPDecryptionError(\"Decryption failed\")\n\n        return decmsg", "            finally:\n                break\n\n        else:\n            raise PGPDecryptionError(\"Decryption failed\")\n\n        return decmsg", 'C04.5',
+  more=[(PGP, "            except (TypeError, ValueError, NotImplementedError, PGPDecryptionError):\n                continue\n\n            finally", "            except (TypeError, ValueError, NotImplementedError, PGPDecryptionError):\n                decmsg = self\n\n            finally")])
+
+# ----------------------------------------------------------------------------- C04.6
+C04_KEY_BODY = """        if self.fingerprint.keyid not in message.encrypters:
+            sks = set(self.subkeys)
+            mis = set(message.encrypters)
+            if sks & mis:
+                skid = list(sks & mis)[0]
+                return self.subkeys[skid].decrypt(message)
+
+            raise PGPError("Cannot decrypt the provided message with this key")
+
+        pkesk = next(pk for pk in message._sessionkeys if isinstance(pk, PKESessionKey)
+                     and pk.pkalg == self.key_algorithm and pk.encrypter == self.fingerprint.keyid)
+        alg, key = pkesk.decrypt_sk(self._key)
+
+        # now that we have the symmetric cipher used and the key, we can decrypt the actual message
+        decmsg = PGPMessage()
+        decmsg.parse(message.message.decrypt(key, alg))
+
+        return decmsg
+"""
+T('C04', 'twin-key-mine-first', PGP, C04_KEY_BODY, """        mine = self.fingerprint.keyid
+        if mine in message.encrypters:
+            for candidate in message._sessionkeys:
+                if isinstance(candidate, PKESessionKey) and candidate.encrypter == mine and self.key_algorithm == candidate.pkalg:
+                    break
+            else:
+                raise PGPError("Cannot decrypt the provided message with this key")
+
+            cipher, sessionkey = candidate.decrypt_sk(pk=self._key)
+            plain = PGPMessage()
+            plain.parse(message.message.decrypt(alg=cipher, key=sessionkey))
+            return plain
+
+        shared = set(self.subkeys).intersection(message.encrypters)
+        if len(shared) > 0:
+            return self.subkeys[next(iter(shared))].decrypt(message)
+
+        raise PGPError("Cannot decrypt the provided message with this key")
+""")
+T('C04', 'twin-key-delegate-loop', PGP, "            if sks & mis:\n                skid = list(sks & mis)[0]\n                return self.subkeys[skid].decrypt(message)\n", "            for skid in sks & mis:\n                return self.subkeys[skid].decrypt(message)\n")
+T('C04', 'twin-key-isdisjoint', PGP, "            if sks & mis:\n                skid = list(sks & mis)[0]\n                return self.subkeys[skid].decrypt(message)\n\n            raise PGPError(\"Cannot decrypt the provided message with this key\")\n",
+  "            if sks.isdisjoint(mis):\n                raise PGPError(\"Cannot decrypt the provided message with this key\")\n\n            skid = sorted(sks & mis)[0]\n            return self.subkeys[skid].decrypt(message)\n")
+T('C04', 'twin-key-listcomp-common', PGP, "            sks = set(self.subkeys)\n            mis = set(message.encrypters)\n            if sks & mis:\n                skid = list(sks & mis)[0]\n                return self.subkeys[skid].decrypt(message)\n",
+  "            common = [kid for kid in self.subkeys if kid in message.encrypters]\n            if common:\n                return self.subkeys[common[0]].decrypt(message)\n")
+T('C04', 'twin-key-listcomp-select', PGP, "        pkesk = next(pk for pk in message._sessionkeys if isinstance(pk, PKESessionKey)\n                     and pk.pkalg == self.key_algorithm and pk.encrypter == self.fingerprint.keyid)\n        alg, key = pkesk.decrypt_sk(self._key)",
+  "        matching = [p for p in message._sessionkeys if isinstance(p, PKESessionKey) if self.fingerprint.keyid == p.encrypter and p.pkalg == self.key_algorithm]\n        alg, key = matching[0].decrypt_sk(self._key)")
+T('C04', 'twin-key-nested-filters', PGP, "        pkesk = next(pk for pk in message._sessionkeys if isinstance(pk, PKESessionKey)\n                     and pk.pkalg == self.key_algorithm and pk.encrypter == self.fingerprint.keyid)\n",
+  "        pkesks = (pk for pk in message._sessionkeys if isinstance(pk, PKESessionKey))\n        pkesk = next(pk for pk in pkesks if pk.pkalg == self.key_algorithm and pk.encrypter == self.fingerprint.keyid)\n")
+M('C04', 'key-delegate-any-subkey', PGP, "                skid = list(sks & mis)[0]", "                skid = list(sks)[0]", 'C04.6')
+M('C04', 'key-delegate-union', PGP, "            if sks & mis:\n                skid = list(sks & mis)[0]", "            if sks | mis:\n                skid = list(sks | mis)[0]", 'C04.6')
+M('C04', 'key-subkey-test-dropped', PGP, "            if sks & mis:\n", "            if sks:\n", 'C04.6')
+M('C04', 'key-selection-or', PGP, "                     and pk.pkalg == self.key_algorithm and pk.encrypter == self.fingerprint.keyid)", "                     and (pk.pkalg == self.key_algorithm or pk.encrypter == self.fingerprint.keyid))", 'C04.6')
+M('C04', 'key-selection-no-isinstance', PGP, "        pkesk = next(pk for pk in message._sessionkeys if isinstance(pk, PKESessionKey)\n                     and pk.pkalg", "        pkesk = next(pk for pk in message._sessionkeys if pk.pkalg", 'C04.6')
+M('C04', 'key-loop-select-no-else', PGP, C04_KEY_BODY, """        mine = self.fingerprint.keyid
+        if mine in message.encrypters:
+            for candidate in message._sessionkeys:
+                if isinstance(candidate, PKESessionKey) and candidate.encrypter == mine and self.key_algorithm == candidate.pkalg:
+                    break
+
+            cipher, sessionkey = candidate.decrypt_sk(pk=self._key)
+            plain = PGPMessage()
+            plain.parse(message.message.decrypt(alg=cipher, key=sessionkey))
+            return plain
+
+        shared = set(self.subkeys).intersection(message.encrypters)
+        if len(shared) > 0:
+            return self.subkeys[next(iter(shared))].decrypt(message)
+
+        raise PGPError("Cannot decrypt the provided message with this key")
+""", 'C04.6')
+M('C04', 'key-fallthrough-own', PGP, "                return self.subkeys[skid].decrypt(message)\n\n            raise PGPError(\"Cannot decrypt the provided message with this key\")\n", "                return self.subkeys[skid].decrypt(message)\n", 'C04.6')
+T('C04', 'twin-seipd-helper-const', PK, """        _expected_mdcbytes = b'\\xd3\\x14' + hashlib.new('SHA1', pt[:-20]).digest()
+        if not constant_time.bytes_eq(bytes(pt[-22:]), _expected_mdcbytes):
+            raise PGPDecryptionError("Decryption failed")  # pragma: no cover
+
+        iv = bytes(pt[:alg.block_size // 8])""", """        self._verify_mdc(pt)
+
+        iv = bytes(pt[:alg.block_size // 8])""",
+  more=[(PK, "class MDC(Packet):\n    \"\"\"\n    5.14.", "    _MDC_PREFIX = b'\\xd3\\x14'\n    _SHA1_LEN = 20\n\n    def _verify_mdc(self, plaintext):\n        trailer_len = len(self._MDC_PREFIX) + self._SHA1_LEN\n        expected = self._MDC_PREFIX + hashlib.new('SHA1', plaintext[:-self._SHA1_LEN]).digest()\n        if not constant_time.bytes_eq(bytes(plaintext[-trailer_len:]), expected):\n            raise PGPDecryptionError(\"Decryption failed\")\n\n\nclass MDC(Packet):\n    \"\"\"\n    5.14.")])
+T('C04', 'twin-pkesk-helper-shift', PK, "        if not sum(symkey) % 65536 == checksum:  # pragma: no cover", "        if self._checksum16(symkey) != checksum:  # pragma: no cover",
+  more=[(PK, "    def encrypt_sk(self, pk, symalg, symkey):\n        m = bytearray(self.int_to_bytes(symalg) + symkey)", "    @staticmethod\n    def _checksum16(octets):\n        return sum(octets) % (1 << 16)\n\n    def encrypt_sk(self, pk, symalg, symkey):\n        m = bytearray(self.int_to_bytes(symalg) + symkey)")])
+T('C04', 'twin-msg-closure', PGP, """            try:
+                symalg, key = skesk.decrypt_sk(passphrase)
+                decmsg = PGPMessage()
+                decmsg.parse(self.message.decrypt(key, symalg))
+
+            except (TypeError, ValueError, NotImplementedError, PGPDecryptionError):
+                continue
+""", """            try:
+                decmsg = attempt(skesk)
+
+            except (TypeError, ValueError, NotImplementedError, PGPDecryptionError):
+                continue
+""", more=[(PGP, "        for skesk in iter(sk for sk in self._sessionkeys if isinstance(sk, SKESessionKey)):", "        def attempt(packet):\n            symalg, key = packet.decrypt_sk(passphrase)\n            out = PGPMessage()\n            out.parse(self.message.decrypt(key, symalg))\n            return out\n\n        for skesk in iter(sk for sk in self._sessionkeys if isinstance(sk, SKESessionKey)):")])
+T('C04', 'twin-key-helper-select', PGP, """        pkesk = next(pk for pk in message._sessionkeys if isinstance(pk, PKESessionKey)
+                     and pk.pkalg == self.key_algorithm and pk.encrypter == self.fingerprint.keyid)
+""", """        pkesk = self._own_session_key_packet(message)
+""", more=[(PGP, "    @KeyAction(is_unlocked=True, is_public=False)\n    def decrypt(self, message):", "    def _own_session_key_packet(self, msg):\n        for packet in msg._sessionkeys:\n            if not isinstance(packet, PKESessionKey):\n                continue\n            if packet.pkalg != self.key_algorithm or packet.encrypter != self.fingerprint.keyid:\n                continue\n            return packet\n        raise StopIteration()\n\n    @KeyAction(is_unlocked=True, is_public=False)\n    def decrypt(self, message):")])
+T('C04', 'twin-key-helper-recipient', PGP, """        if self.fingerprint.keyid not in message.encrypters:
+            sks = set(self.subkeys)
+            mis = set(message.encrypters)
+            if sks & mis:
+                skid = list(sks & mis)[0]
+                return self.subkeys[skid].decrypt(message)
+
+            raise PGPError("Cannot decrypt the provided message with this key")
+""", """        if not self._is_recipient(message):
+            addressed = self._recipient_subkeys(message)
+            if not addressed:
+                raise PGPError("Cannot decrypt the provided message with this key")
+            return self.subkeys[addressed.pop()].decrypt(message)
+""", more=[(PGP, "    @KeyAction(is_unlocked=True, is_public=False)\n    def decrypt(self, message):", "    def _is_recipient(self, msg):\n        return self.fingerprint.keyid in msg.encrypters\n\n    def _recipient_subkeys(self, msg):\n        return set(self.subkeys) & set(msg.encrypters)\n\n    @KeyAction(is_unlocked=True, is_public=False)\n    def decrypt(self, message):")])
+T('C04', 'twin-ecdh-const-helper', FL, """        padder = PKCS7(64).unpadder()
+        return padder.update(_m) + padder.finalize()
+""", """        return self._pkcs5_unpad(_m)
+
+    _PKCS5_BLOCK_BITS = 8 * 8
+
+    def _pkcs5_unpad(self, padded):
+        unpadder = PKCS7(self._PKCS5_BLOCK_BITS).unpadder()
+        data = unpadder.update(padded)
+        data += unpadder.finalize()
+        return data
+""")
+T('C04', 'twin-keyblob-helpers', FL, """        if self.s2k.usage == 254 and not pt[-20:] == hashlib.new('sha1', pt[:-20]).digest():
+            # if the usage byte is 254, key material is followed by a 20-octet sha-1 hash of the rest
+            # of the key material block
+            raise PGPDecryptionError("Passphrase was incorrect!")
+
+        if self.s2k.usage == 255 and not self.bytes_to_int(pt[-2:]) == (sum(bytearray(pt[:-2])) % 65536):  # pragma: no cover
+            # if the usage byte is 255, key material is followed by a 2-octet checksum of the rest
+            # of the key material block
+            raise PGPDecryptionError("Passphrase was incorrect!")
+""", """        if not self._keyblob_intact(pt):
+            raise PGPDecryptionError("Passphrase was incorrect!")
+""", more=[(FL, "    def decrypt_keyblob(self, passphrase):\n        if not self.s2k:  # pragma: no cover", "    def _keyblob_intact(self, material):\n        if self.s2k.usage == 254:\n            return material[-20:] == hashlib.new('sha1', material[:-20]).digest()\n        if self.s2k.usage == 255:\n            return self.bytes_to_int(material[-2:]) == sum(bytearray(material[:-2])) % 65536\n        return True\n\n    def decrypt_keyblob(self, passphrase):\n        if not self.s2k:  # pragma: no cover")])
+M('C04', 'keyblob-helper-default-true', FL, """        if self.s2k.usage == 254 and not pt[-20:] == hashlib.new('sha1', pt[:-20]).digest():
+            # if the usage byte is 254, key material is followed by a 20-octet sha-1 hash of the rest
+            # of the key material block
+            raise PGPDecryptionError("Passphrase was incorrect!")
+
+        if self.s2k.usage == 255 and not self.bytes_to_int(pt[-2:]) == (sum(bytearray(pt[:-2])) % 65536):  # pragma: no cover
+            # if the usage byte is 255, key material is followed by a 2-octet checksum of the rest
+            # of the key material block
+            raise PGPDecryptionError("Passphrase was incorrect!")
+""", """        if not self._keyblob_intact(pt):
+            raise PGPDecryptionError("Passphrase was incorrect!")
+""", 'C04.4', more=[(FL, "    def decrypt_keyblob(self, passphrase):\n        if not self.s2k:  # pragma: no cover", "    def _keyblob_intact(self, material):\n        if self.s2k.usage == 254:\n            return material[-20:] == hashlib.new('sha1', material[:-20]).digest()\n        if self.s2k.usage == 253:\n            return self.bytes_to_int(material[-2:]) == sum(bytearray(material[:-2])) % 65536\n        return True\n\n    def decrypt_keyblob(self, passphrase):\n        if not self.s2k:  # pragma: no cover")])
+M('C04', 'seipd-helper-returns-bool-ignored', PK, """        _expected_mdcbytes = b'\\xd3\\x14' + hashlib.new('SHA1', pt[:-20]).digest()
+        if not constant_time.bytes_eq(bytes(pt[-22:]), _expected_mdcbytes):
+            raise PGPDecryptionError("Decryption failed")  # pragma: no cover
+
+        iv = bytes(pt[:alg.block_size // 8])""", """        self._verify_mdc(pt)
+
+        iv = bytes(pt[:alg.block_size // 8])""", 'C04.1',
+  more=[(PK, "class MDC(Packet):\n    \"\"\"\n    5.14.", "    def _verify_mdc(self, plaintext):\n        expected = b'\\xd3\\x14' + hashlib.new('SHA1', plaintext[:-20]).digest()\n        return constant_time.bytes_eq(bytes(plaintext[-22:]), expected)\n\n\nclass MDC(Packet):\n    \"\"\"\n    5.14.")])
+# mirrors of the independent twins (C04-ref3, C03-ref3, C04-ref4)
+T('C04', 'twin-msg-ref3-helper-sentinel', PGP, C04_MSG_LOOP, """        decmsg = None
+        candidates = [sk for sk in self._sessionkeys if isinstance(sk, SKESessionKey)]
+        for skesk in candidates:
+            try:
+                decmsg = self._decrypt_with_skesk(skesk, passphrase)
+
+            except self._skesk_mismatch_errors:
+                continue
+
+            break
+
+        if decmsg is None:
+            raise PGPDecryptionError("Decryption failed")
+
+        del passphrase
+        return decmsg
+
+    _skesk_mismatch_errors = (TypeError, ValueError, NotImplementedError, PGPDecryptionError)
+
+    def _decrypt_with_skesk(self, skesk, passphrase):
+        symalg, key = skesk.decrypt_sk(passphrase)
+        decmsg = PGPMessage()
+        decmsg.parse(self.message.decrypt(key, symalg))
+        return decmsg
+""")
+T('C04', 'twin-msg-ref3-continue-filter', PGP, "        for skesk in iter(sk for sk in self._sessionkeys if isinstance(sk, SKESessionKey)):\n            try:", "        for skesk in self._sessionkeys:\n            if not isinstance(skesk, SKESessionKey):\n                continue\n\n            try:")
+T('C04', 'twin-key-ref4-guard-clause', PGP, "            if sks & mis:\n                skid = list(sks & mis)[0]\n                return self.subkeys[skid].decrypt(message)\n\n            raise PGPError(\"Cannot decrypt the provided message with this key\")\n",
+  "            shared = sks & mis\n            if not shared:\n                raise PGPError(\"Cannot decrypt the provided message with this key\")\n\n            skid = list(shared)[0]\n            return self.subkeys[skid].decrypt(message)\n",
+  more=[(PGP, "        decmsg.parse(message.message.decrypt(key, alg))", "        decmsg.parse(message.message.decrypt(key=key, alg=alg))")])
+T('C04', 'twin-key-ref3-common-once', PGP, "            sks = set(self.subkeys)\n            mis = set(message.encrypters)\n            if sks & mis:\n                skid = list(sks & mis)[0]", "            common = set(self.subkeys) & set(message.encrypters)\n            if common:\n                skid = list(common)[0]")
+T('C04', 'twin-ecdh-ref4-branches-swapped', FL, """        if km.oid == EllipticCurveOID.Curve25519:
+            v = x25519.X25519PublicKey.from_public_bytes(self.p.x)
+            s = km.__privkey__().exchange(v)
+        else:
+            # assemble the public component of ephemeral key v
+            v = ec.EllipticCurvePublicNumbers(self.p.x, self.p.y, km.oid.curve()).public_key(default_backend())
+            # compute s using the inverse of how it was derived during encryption
+            s = km.__privkey__().exchange(ec.ECDH(), v)
+
+        # derive the wrapping key
+        z = km.kdf.derive_key(s, km.oid, PubKeyAlgorithm.ECDH, pk.fingerprint)
+
+        # unwrap and unpad m
+        _m = aes_key_unwrap(z, self.c, default_backend())
+
+        padder = PKCS7(64).unpadder()
+        return padder.update(_m) + padder.finalize()
+""", """        if km.oid != EllipticCurveOID.Curve25519:
+            ephemeral_numbers = ec.EllipticCurvePublicNumbers(self.p.x, self.p.y, km.oid.curve())
+            ephemeral_pub = ephemeral_numbers.public_key(default_backend())
+            shared_secret = km.__privkey__().exchange(ec.ECDH(), ephemeral_pub)
+        else:
+            ephemeral_pub = x25519.X25519PublicKey.from_public_bytes(self.p.x)
+            shared_secret = km.__privkey__().exchange(ephemeral_pub)
+
+        kek = km.kdf.derive_key(shared_secret, km.oid, PubKeyAlgorithm.ECDH, pk.fingerprint)
+        padded_m = aes_key_unwrap(wrapping_key=kek, wrapped_key=self.c, backend=default_backend())
+
+        unpadder = PKCS7(64).unpadder()
+        m = unpadder.update(padded_m)
+        m += unpadder.finalize()
+        return m
+""")
+M('C04', 'msg-ref3-helper-swallows', PGP, C04_MSG_LOOP, """        decmsg = None
+        candidates = [sk for sk in self._sessionkeys if isinstance(sk, SKESessionKey)]
+        for skesk in candidates:
+            try:
+                decmsg = self._decrypt_with_skesk(skesk, passphrase)
+
+            except self._skesk_mismatch_errors:
+                continue
+
+            break
+
+        if decmsg is None:
+            raise PGPDecryptionError("Decryption failed")
+
+        del passphrase
+        return decmsg
+
+    _skesk_mismatch_errors = (TypeError, ValueError, NotImplementedError, PGPDecryptionError)
+
+    def _decrypt_with_skesk(self, skesk, passphrase):
+        symalg, key = skesk.decrypt_sk(passphrase)
+        decmsg = PGPMessage()
+        try:
+            decmsg.parse(self.message.decrypt(key, symalg))
+        except PGPDecryptionError:
+            pass
+        return decmsg
+""", 'C04.5')
+M('C04', 'key-helper-select-loose', PGP, """        pkesk = next(pk for pk in message._sessionkeys if isinstance(pk, PKESessionKey)
+                     and pk.pkalg == self.key_algorithm and pk.encrypter == self.fingerprint.keyid)
+""", """        pkesk = self._own_session_key_packet(message)
+""", 'C04.6', more=[(PGP, "    @KeyAction(is_unlocked=True, is_public=False)\n    def decrypt(self, message):", "    def _own_session_key_packet(self, msg):\n        for packet in msg._sessionkeys:\n            if not isinstance(packet, PKESessionKey):\n                continue\n            if packet.pkalg != self.key_algorithm and packet.encrypter != self.fingerprint.keyid:\n                continue\n            return packet\n        raise StopIteration()\n\n    @KeyAction(is_unlocked=True, is_public=False)\n    def decrypt(self, message):")])
+T('C04', 'twin-msg-two-tries-errors', PGP, C04_MSG_LOOP, """        failures = []
+        packets = self._sessionkeys
+        if not packets:
+            raise PGPDecryptionError("Decryption failed")
+
+        for skesk in packets:
+            if not isinstance(skesk, SKESessionKey):
+                continue
+
+            try:
+                symalg, key = skesk.decrypt_sk(passphrase)
+            except (TypeError, ValueError, NotImplementedError, PGPDecryptionError) as exc:
+                failures.append(exc)
+                continue
+
+            decmsg = PGPMessage()
+            try:
+                decmsg.parse(self.message.decrypt(key, symalg))
+            except (TypeError, ValueError, NotImplementedError, PGPDecryptionError) as exc:
+                failures.append(exc)
+                continue
+
+            del passphrase
+            return decmsg
+
+        raise PGPDecryptionError("Decryption failed")
+""")
+M('C04', 'msg-two-tries-second-passes', PGP, C04_MSG_LOOP, """        failures = []
+        for skesk in self._sessionkeys:
+            if not isinstance(skesk, SKESessionKey):
+                continue
+
+            try:
+                symalg, key = skesk.decrypt_sk(passphrase)
+            except (TypeError, ValueError, NotImplementedError, PGPDecryptionError) as exc:
+                failures.append(exc)
+                continue
+
+            decmsg = PGPMessage()
+            try:
+                decmsg.parse(self.message.decrypt(key, symalg))
+            except (TypeError, ValueError, NotImplementedError, PGPDecryptionError) as exc:
+                failures.append(exc)
+
+            del passphrase
+            return decmsg
+
+        raise PGPDecryptionError("Decryption failed")
+""", 'C04.5')
+T('C04', 'twin-key-next-default', PGP, """        pkesk = next(pk for pk in message._sessionkeys if isinstance(pk, PKESessionKey)
+                     and pk.pkalg == self.key_algorithm and pk.encrypter == self.fingerprint.keyid)
+""", """        keyid = self.fingerprint.keyid
+        pkesk = next((pk for pk in message._sessionkeys
+                      if isinstance(pk, PKESessionKey) and pk.pkalg == self.key_algorithm and pk.encrypter == keyid), None)
+        if pkesk is None:
+            raise PGPError("Cannot decrypt the provided message with this key")
+""")
+T('C04', 'twin-key-try-stopiteration', PGP, """        pkesk = next(pk for pk in message._sessionkeys if isinstance(pk, PKESessionKey)
+                     and pk.pkalg == self.key_algorithm and pk.encrypter == self.fingerprint.keyid)
+""", """        try:
+            pkesk = next(pk for pk in message._sessionkeys if isinstance(pk, PKESessionKey)
+                         and pk.pkalg == self.key_algorithm and pk.encrypter == self.fingerprint.keyid)
+        except StopIteration:
+            raise PGPError("Cannot decrypt the provided message with this key")
+""")
+T('C04', 'twin-key-elif-aliases', PGP, """        if self.fingerprint.keyid not in message.encrypters:
+            sks = set(self.subkeys)
+            mis = set(message.encrypters)
+            if sks & mis:
+                skid = list(sks & mis)[0]
+                return self.subkeys[skid].decrypt(message)
+
+            raise PGPError("Cannot decrypt the provided message with this key")
+""", """        recipients = message.encrypters
+        mine = self.fingerprint.keyid in recipients
+        theirs = set(self._children) & set(recipients)
+        if not mine and theirs:
+            subkey = self._children[min(theirs)]
+            return subkey.decrypt(message)
+
+        elif not mine:
+            raise PGPError("Cannot decrypt the provided message with this key")
+""")
+M('C04', 'key-elif-or', PGP, """        if self.fingerprint.keyid not in message.encrypters:
+            sks = set(self.subkeys)
+            mis = set(message.encrypters)
+            if sks & mis:
+                skid = list(sks & mis)[0]
+                return self.subkeys[skid].decrypt(message)
+
+            raise PGPError("Cannot decrypt the provided message with this key")
+""", """        recipients = message.encrypters
+        mine = self.fingerprint.keyid in recipients
+        theirs = set(self._children) & set(recipients)
+        if not mine and theirs:
+            subkey = self._children[min(theirs)]
+            return subkey.decrypt(message)
+
+        elif not mine and not self._children:
+            raise PGPError("Cannot decrypt the provided message with this key")
+""", 'C04.6')
+T('C04', 'twin-keyblob-derive-kw', FL, "        sessionkey = self.s2k.derive_key(passphrase)\n        del passphrase\n\n        # attempt to decrypt this key", "        sessionkey = self.s2k.derive_key(passphrase=passphrase)\n        del passphrase\n\n        # attempt to decrypt this key")
+T('C04', 'twin-pkesk-sum-loop', PK, "        if not sum(symkey) % 65536 == checksum:  # pragma: no cover", "        total = 0\n        for octet in symkey:\n            total += octet\n\n        if total % 65536 != checksum:  # pragma: no cover")
+# wave-2 twin families (C04-ref6: static in-place helpers; C06-ref5: flag variable for the key blob trailer)
+T('C04', 'twin-seipd-w2-static-helpers', PK, C04_SEIPD, """        pt = _decrypt(bytes(self.ct), bytes(key), alg)
+
+        self._check_mdc(pt)
+        self._strip_prefix(pt, alg)
+
+        return pt
+
+    @staticmethod
+    def _check_mdc(pt):
+        mdc_body = hashlib.sha1(pt[:-20]).digest()
+        if not constant_time.bytes_eq(bytes(pt[-22:]), b'\\xd3\\x14' + mdc_body):
+            raise PGPDecryptionError("Decryption failed")  # pragma: no cover
+
+    @staticmethod
+    def _strip_prefix(pt, alg):
+        bs = alg.block_size // 8
+        iv = bytes(pt[:bs])
+        ivl2 = bytes(pt[bs:bs + 2])
+        del pt[:bs + 2]
+
+        if not constant_time.bytes_eq(iv[-2:], ivl2):
+            raise PGPDecryptionError("Decryption failed")  # pragma: no cover
+""")
+M('C04', 'seipd-w2-helper-mdc-only-if-present', PK, C04_SEIPD, """        pt = _decrypt(bytes(self.ct), bytes(key), alg)
+
+        self._check_mdc(pt)
+        self._strip_prefix(pt, alg)
+
+        return pt
+
+    @staticmethod
+    def _check_mdc(pt):
+        mdc_body = hashlib.sha1(pt[:-20]).digest()
+        if bytes(pt[-22:-20]) == b'\\xd3\\x14' and not constant_time.bytes_eq(bytes(pt[-20:]), mdc_body):
+            raise PGPDecryptionError("Decryption failed")  # pragma: no cover
+
+    @staticmethod
+    def _strip_prefix(pt, alg):
+        bs = alg.block_size // 8
+        iv = bytes(pt[:bs])
+        ivl2 = bytes(pt[bs:bs + 2])
+        del pt[:bs + 2]
+
+        if not constant_time.bytes_eq(iv[-2:], ivl2):
+            raise PGPDecryptionError("Decryption failed")  # pragma: no cover
+""", 'C04.1')
+T('C04', 'twin-keyblob-w2-intact-flag', FL, C04_KB, """        usage = self.s2k.usage
+        if usage == 254:
+            intact = hashlib.new('sha1', pt[:-20]).digest() == pt[-20:]
+
+        elif usage == 255:  # pragma: no cover
+            intact = sum(bytearray(pt[:-2])) % 65536 == int.from_bytes(pt[-2:], 'big')
+
+        else:  # pragma: no cover
+            intact = True
+
+        if not intact:
+            raise PGPDecryptionError("Passphrase was incorrect!")
+
+        return bytearray(pt)
+""")
+M('C04', 'keyblob-w2-intact-flag-inverted', FL, C04_KB, """        usage = self.s2k.usage
+        if usage == 254:
+            intact = hashlib.new('sha1', pt[:-20]).digest() == pt[-20:]
+
+        elif usage == 255:  # pragma: no cover
+            intact = sum(bytearray(pt[:-2])) % 65536 != int.from_bytes(pt[-2:], 'big')
+
+        else:  # pragma: no cover
+            intact = True
+
+        if not intact:
+            raise PGPDecryptionError("Passphrase was incorrect!")
+
+        return bytearray(pt)
+""", 'C04.4')
+M('C04', 'pkesk-checksum-skipped-when-zero', PK, C04_PKSK, """        cipher = SymmetricKeyAlgorithm(m[0])
+        klen = cipher.key_size // 8
+        sessionkey = m[1:1 + klen]
+        expected = int.from_bytes(m[1 + klen:3 + klen], 'big')
+        if expected and (sum(sessionkey) & 0xFFFF) != expected:
+            raise PGPDecryptionError("{:s} decryption failed".format(self.pkalg.name))
+        return cipher, sessionkey
+""", 'C04.3')
+M('C04', 'pkesk-checksum-low-octet', PK, "        checksum = self.bytes_to_int(m[:2])\n        del m[:2]\n\n        if not sum(symkey) % 65536 == checksum:", "        checksum = self.bytes_to_int(m[1:2])\n        del m[:2]\n\n        if not sum(symkey) % 256 == checksum:", 'C04.3')
+M('C04', 'pkesk-sum-loop-mod-256', PK, "        if not sum(symkey) % 65536 == checksum:  # pragma: no cover", "        total = 0\n        for octet in symkey:\n            total += octet\n\n        if total % 256 != checksum % 256:  # pragma: no cover", 'C04.3')
+M('C04', 'keyblob-nested-255-no-raise', FL, C04_KB, """        usage = self.s2k.usage
+        if usage == 254:
+            body, digest = pt[:-20], pt[-20:]
+            if digest != hashlib.sha1(body).digest():
+                raise PGPDecryptionError("Passphrase was incorrect!")
+
+        elif usage == 255:
+            if self.bytes_to_int(pt[-2:]) != sum(bytearray(pt[:-2])) % 65536:
+                warnings.warn("Passphrase was incorrect!")
+
+        return bytearray(pt)
+""", 'C04.4')
+M('C04', 'ecdh-unpad-manual', FL, C04_ECD, """        return _m[:-_m[-1]]
+""", 'C04.7')
+M('C04', 'key-selection-alg-only-when-set', PGP, "                     and pk.pkalg == self.key_algorithm and pk.encrypter == self.fingerprint.keyid)", "                     and pk.pkalg == self.key_algorithm and (not pk.encrypter or pk.encrypter == self.fingerprint.keyid))", 'C04.6')
+M('C04', 'msg-filter-hasattr', PGP, "        for skesk in iter(sk for sk in self._sessionkeys if isinstance(sk, SKESessionKey)):", "        for skesk in iter(sk for sk in self._sessionkeys if hasattr(sk, 'decrypt_sk')):", 'C04.5')
+
 # =============================================================================================== C03
 M('C03', 'checksum-65535', PK, "        m += self.int_to_bytes(sum(bytearray(symkey)) % 65536, 2)", "        m += self.int_to_bytes(sum(bytearray(symkey)) % 65535, 2)", 'C03.1')
 M('C03', 'checksum-1-octet', PK, "        m += self.int_to_bytes(sum(bytearray(symkey)) % 65536, 2)", "        m += self.int_to_bytes(sum(bytearray(symkey)) % 65536)", 'C03.1')
@@ -2246,3 +3011,21 @@ T('C14', 'twin-export-subkeys-by-keyid', PGP, "        for sk in self._children.
   "        for keyid in self._children:\n            _bytes += self._children[keyid].__bytearray__()\n\n        return _bytes")
 M('C14', 'export-first-subkey-only', PGP, "        for sk in self._children.values():\n            _bytes += sk.__bytearray__()\n\n        return _bytes",
   "        for sk in list(self._children.values())[:1]:\n            _bytes += sk.__bytearray__()\n\n        return _bytes", 'C14.1')
+
+# ---- held-out wave (C14-ref6, C20-ref5, C20-ref6)
+T('C14', 'twin-grouper-class-attribute', PGP, "        def pktgrouper():\n            class PktGrouper(object):\n                def __init__(self):\n                    self.last = None\n\n                def __call__(self, pkt):\n" + GROUPER + "            return PktGrouper()\n", "",
+  more=[(PGP, "itertools.groupby(getpkt, key=pktgrouper())", "itertools.groupby(getpkt, key=self._PktGrouper())"),
+        (PGP, "    def parse(self, data):\n        unarmored = self.ascii_unarmor(data)\n        data = unarmored['body']\n\n        if unarmored['magic'] is not None and 'KEY' not in unarmored['magic']:",
+         "    class _PktGrouper(object):\n        def __init__(self):\n            self.last = None\n\n        def __call__(self, pkt):\n            if pkt.header.tag != PacketTag.Signature:\n                self.last = '{:02X}_{:s}'.format(id(pkt), pkt.__class__.__name__)\n            return self.last\n\n"
+         "    def parse(self, data):\n        unarmored = self.ascii_unarmor(data)\n        data = unarmored['body']\n\n        if unarmored['magic'] is not None and 'KEY' not in unarmored['magic']:")])
+M('C14', 'grouper-class-attribute-splits-on-all', PGP, "        def pktgrouper():\n            class PktGrouper(object):\n                def __init__(self):\n                    self.last = None\n\n                def __call__(self, pkt):\n" + GROUPER + "            return PktGrouper()\n", "", 'C14.3',
+  more=[(PGP, "itertools.groupby(getpkt, key=pktgrouper())", "itertools.groupby(getpkt, key=self._PktGrouper())"),
+        (PGP, "    def parse(self, data):\n        unarmored = self.ascii_unarmor(data)\n        data = unarmored['body']\n\n        if unarmored['magic'] is not None and 'KEY' not in unarmored['magic']:",
+         "    class _PktGrouper(object):\n        def __init__(self):\n            self.last = None\n\n        def __call__(self, pkt):\n            if pkt.header.tag != PacketTag.Trust:\n                self.last = '{:02X}_{:s}'.format(id(pkt), pkt.__class__.__name__)\n            return self.last\n\n"
+         "    def parse(self, data):\n        unarmored = self.ascii_unarmor(data)\n        data = unarmored['body']\n\n        if unarmored['magic'] is not None and 'KEY' not in unarmored['magic']:")])
+T('C20', 'twin-all-yield-from', PGP, "            for sig in self._signatures:\n                yield sig\n            for pkt in self._sessionkeys:\n                yield pkt\n            yield self.message\n",
+  "            yield from self._signatures\n            yield from self._sessionkeys\n            yield self.message\n")
+M('C20', 'yield-from-sessionkeys-after-container', PGP, "            for sig in self._signatures:\n                yield sig\n            for pkt in self._sessionkeys:\n                yield pkt\n            yield self.message\n",
+  "            yield from self._signatures\n            yield self.message\n            yield from self._sessionkeys\n", 'C20.1')
+T('C20', 'twin-ops-flag-operands-swapped', PK, "        self.nested = (packet[0] == 1)\n", "        self.nested = (1 == packet[0])\n")
+M('C20', 'ops-reader-flag-two', PK, "        self.nested = (packet[0] == 1)\n", "        self.nested = (2 == packet[0])\n", 'C20.6')
